@@ -44,6 +44,10 @@ pub struct ParCase {
     /// Miri "hammer" scenario: few literals, many overlapping calls, no coverage accounting
     #[serde(default)]
     pub hammer: bool,
+    /// compute the reference outcomes after the simulated run instead of before it, so that the
+    /// run (not the reference call) is the first use of whatever process-global state exists
+    #[serde(default)]
+    pub ref_after: bool,
 }
 
 #[derive(Clone, Debug, PartialEq, Eq, Serialize, Deserialize)]
@@ -233,24 +237,41 @@ pub fn run_case(case: &ParCase, stats: &mut Stats, miri: bool) -> Result<ParInfo
 
     // --- reference outcomes: plain slices, one task, no world, poison P_ref ---
     let mut refs: BTreeMap<(u8, bool, usize), (Res, Counts)> = BTreeMap::new();
-    if prop != "C08" {
-        worlds::set_poison_all(case.poison_ref);
-        for t in &case.tasks {
-            for op in t {
-                if let POp::Parse { world, f64, input, .. } = op {
-                    refs.entry((*world, *f64, *input))
-                        .or_insert_with(|| reference_call(*world, *f64, &case.inputs[*input]));
+    let compute_refs = |refs: &mut BTreeMap<(u8, bool, usize), (Res, Counts)>| {
+        if prop != "C08" {
+            worlds::set_poison_all(case.poison_ref);
+            for t in &case.tasks {
+                for op in t {
+                    if let POp::Parse { world, f64, input, .. } = op {
+                        refs.entry((*world, *f64, *input))
+                            .or_insert_with(|| reference_call(*world, *f64, &case.inputs[*input]));
+                    }
                 }
             }
+            worlds::set_poison_all(None);
         }
-        worlds::set_poison_all(None);
+    };
+    if !case.ref_after {
+        compute_refs(&mut refs);
     }
 
     // --- the run ---
     let run = execute(case, &case.sched, case.yield_mode);
+    if case.ref_after {
+        compute_refs(&mut refs);
+        stats.inc("reach.reference_computed_after_the_run");
+    }
     info.steps = run.trace.steps;
     info.switches = run.trace.switches;
     info.trace_fp = run.trace.event_fp;
+    stats.inc(match &case.sched.kind {
+        SchedKind::Random => "sched.kind.random",
+        SchedKind::Pct { .. } => "sched.kind.pct",
+        SchedKind::Burst { .. } => "sched.kind.burst",
+        SchedKind::Sequential => "sched.kind.sequential",
+        SchedKind::Rendezvous { .. } => "sched.kind.rendezvous",
+        SchedKind::Replay { .. } => "sched.kind.replay",
+    });
     stats.add("sched.steps", run.trace.steps);
     stats.add("sched.decisions", run.trace.decisions.len() as u64);
     stats.add("sched.switches", run.trace.switches);
@@ -265,8 +286,10 @@ pub fn run_case(case: &ParCase, stats: &mut Stats, miri: bool) -> Result<ParInfo
         dg.push(d as u64);
     }
 
+    let mut deep_tasks_per_world = [0u32; N_WORLDS];
     for (t, ops) in case.tasks.iter().enumerate() {
         let mut prev_slow_on_task = false;
+        let mut deep_worlds_this_task = [false; N_WORLDS];
         for (k, op) in ops.iter().enumerate() {
             let (world, is64, input, si, sf) = match op {
                 POp::Parse { world, f64, input, si, sf } => (*world, *f64, *input, si, sf),
@@ -338,6 +361,20 @@ pub fn run_case(case: &ParCase, stats: &mut Stats, miri: bool) -> Result<ParInfo
                     shape::KIND_NAMES[si.kind as usize].min(shape::KIND_NAMES[sf.kind as usize]),
                     worlds::TIER_NAMES[tier as usize]
                 ));
+                if tier.is_slow() && !miri {
+                    let ex = with_world!(world as usize, W, W::slow_exponent(is64, &inp.int, &inp.frac, inp.exp));
+                    let mag = ex.unsigned_abs();
+                    stats.inc(match mag {
+                        0..=26 => "reach.slow_pow5_exponent_0_26",
+                        27..=134 => "reach.slow_pow5_exponent_27_134",
+                        135..=269 => "reach.slow_pow5_exponent_135_269",
+                        270..=1079 => "reach.slow_pow5_exponent_270_1079",
+                        _ => "reach.slow_pow5_exponent_1080_up",
+                    });
+                    if mag >= 1080 {
+                        deep_worlds_this_task[world as usize] = true;
+                    }
+                }
                 if preempted {
                     stats.inc("reach.call_preempted");
                     if tier.is_slow() {
@@ -437,8 +474,18 @@ pub fn run_case(case: &ParCase, stats: &mut Stats, miri: bool) -> Result<ParInfo
                 },
             }
         }
+        for w in 0..N_WORLDS {
+            if deep_worlds_this_task[w] {
+                deep_tasks_per_world[w] += 1;
+            }
+        }
     }
 
+    for w in 0..N_WORLDS {
+        if deep_tasks_per_world[w] >= 2 {
+            stats.inc("reach.two_tasks_need_pow5_1080_up_in_one_configuration");
+        }
+    }
     // --- C08 (native): the same corrupted bytes over different stale memory ---
     // A call whose outcome changes with the contents of never-written backing
     // slots has read them: in the shipped build that is a read of uninitialised
@@ -567,6 +614,7 @@ fn gen_hammer_case(seed: u64, cfg: &GenCfg) -> ParCase {
         lib_mask: if r.chance(1, 2) { 0 } else { r.next_u64() },
         lib_every: *r.pick(&[1u32, 3, 7]),
         hammer: true,
+        ref_after: r.chance(1, 2),
     }
 }
 
@@ -628,13 +676,16 @@ pub fn gen_case(seed: u64, cfg: &GenCfg) -> ParCase {
     // "sticky" runs: every task keeps hammering one or two related requests, so that
     // state shared between callers (caches, scratch buffers) is hit while it is being rewritten
     let sticky = ntasks > 1 && r.chance(1, 2);
+    // process-global state of a configuration is shared only by callers of that
+    // configuration: sticky runs mostly stay in one
+    let run_world = *r.pick(worlds_under_test);
     let mut tasks = Vec::new();
     for _ in 0..ntasks {
         let nops = if sticky { 2 + r.usize_below(max_ops.max(3) - 1) } else { 1 + r.usize_below(max_ops) };
         let mut ops = Vec::new();
         let pinned_a = r.usize_below(inputs.len());
         let pinned_b = r.usize_below(inputs.len());
-        let pinned_world = *r.pick(worlds_under_test);
+        let pinned_world = if r.chance(4, 5) { run_world } else { *r.pick(worlds_under_test) };
         for _ in 0..nops {
             if !cfg.miri && r.chance(1, 6) {
                 ops.push(POp::StackPoison { pattern: r.next_u64(), kib: *r.pick(&[16u32, 32, 64, 128]) });
@@ -669,6 +720,12 @@ pub fn gen_case(seed: u64, cfg: &GenCfg) -> ParCase {
     let horizon = (maxdig as u32 * 3 * ntasks as u32).clamp(16, 20_000);
     let kind = if ntasks == 1 {
         SchedKind::Sequential
+    } else if sticky && r.chance(1, 2) {
+        // align the callers at one library site (between parser stages, or at a big-integer primitive)
+        SchedKind::Rendezvous {
+            site: *r.pick(&[21u8, 21, 22, 22, 27, 28, 14, 15, 13, 11, 12, 17, 24, 25, 26, 23]),
+            burst: *r.pick(&[16u16, 64, 256, 1024]),
+        }
     } else {
         match r.below(6) {
             0 | 1 => SchedKind::Random,
@@ -677,7 +734,7 @@ pub fn gen_case(seed: u64, cfg: &GenCfg) -> ParCase {
             _ => SchedKind::Burst { mean: *r.pick(&[2u16, 4, 16, 64, 256]) },
         }
     };
-    ParCase {
+    with_rendezvous_site_enabled(ParCase {
         property: prop.to_string(),
         inputs,
         tasks,
@@ -698,7 +755,16 @@ pub fn gen_case(seed: u64, cfg: &GenCfg) -> ParCase {
         },
         lib_every: *r.pick(&[1u32, 1, 2, 5, 16]),
         hammer: false,
+        ref_after: r.chance(1, 2),
+    })
+}
+
+/// (kept separate for clarity) the rendezvous site must be an enabled library site
+fn with_rendezvous_site_enabled(mut c: ParCase) -> ParCase {
+    if let SchedKind::Rendezvous { site, .. } = &c.sched.kind {
+        c.lib_mask |= 1u64 << (*site as u64 & 63);
     }
+    c
 }
 
 // ---------------------------------------------------------------------------
@@ -870,6 +936,7 @@ pub fn gen_case_c08(seed: u64, cfg: &GenCfg) -> ParCase {
         lib_mask: 0,
         lib_every: 1,
         hammer: false,
+        ref_after: false,
     }
 }
 
